@@ -104,6 +104,12 @@ func VerifyFunc(pr *Prog, eff *Effects, fi *FuncInfo, opts VerifyOpts) (rep *Fun
 		if f := x.typeFacts(v, p.Type()); !f.IsTrue() {
 			st.assume(f)
 		}
+		switch v.Sort {
+		case SRef:
+			st.assume(Or(Eq(v, TNull), Sel(x.initial(allocKey, ArrSort(SRef, SBool)), v)))
+		case SSlice:
+			st.assume(Or(Eq(SArr(v), IntLit(0)), Sel(x.initial(arrAllocKey, ArrSort(SInt, SBool)), SArr(v))))
+		}
 		if i == 0 && sig.Recv() != nil && v.Sort == SRef {
 			if _, isPtr := types.Unalias(p.Type()).Underlying().(*types.Pointer); isPtr {
 				st.assume(Not(Eq(v, TNull))) // implicit precondition, asserted at call sites
@@ -149,6 +155,23 @@ func VerifyFunc(pr *Prog, eff *Effects, fi *FuncInfo, opts VerifyOpts) (rep *Fun
 		}
 	}
 	fr.entry = st.clone()
+	if spec != nil && spec.Decr != nil {
+		env := x.newSpecEnvFrame(st, fr, fi.Decl.Body.Lbrace+1)
+		x.entryMeasure = x.ctx.Define("measure0", env.eval(spec.Decr.Expr).t)
+	}
+	if spec != nil && spec.HasMod {
+		// frame: everything the body may write (inferred, transitive) must be covered by the declared modifies
+		decl := map[string]bool{}
+		for _, k := range x.expandModifies(spec.Modifies, fi) {
+			decl[k] = true
+		}
+		for _, k := range sortedKeys(eff.Of(fi).regions) {
+			if !decl[k] {
+				o := x.emit(st, fi.Key+"/frame.modifies["+k+"]", "frame", TFalse, fi.Decl.Pos(), "the body may write "+k+" which the modifies clause does not list")
+				o.Result = &SolveResult{Status: "frame-violation", Solver: "effects"}
+			}
+		}
+	}
 	rvs, rts := x.resultVars(fi.Pkg.TypesInfo, fi.Decl.Type)
 	for i, rv := range rvs {
 		key := fmt.Sprintf("r$%d$%d", fr.id, i)
